@@ -488,6 +488,9 @@ func cmdDriveHistory(args []string) error {
 		// the same line in two lists (subscriptions overlap): each copy is a rule of its own list
 		dup := "||" + histHosts[hr.Intn(len(histHosts))] + "^"
 		lines = append(append([]string{dup}, lines...), lines[0], lines[1], dup)
+		// two rules with one pattern, case-sensitive for images and not for scripts: the first requests of every history
+		// reach the pattern of the one, then of the other (what the first leaves behind must not serve the second)
+		lines = append(lines, "/Promo/banner$match-case,image", "/Promo/banner$script")
 		// every 3rd history: the lists of the long-lived engines have a spell of failing retrievals (queries asked during
 		// the spell are not part of the history: an I/O error is the environment's doing); afterwards every answer has to
 		// be the fresh engine's again
@@ -537,6 +540,12 @@ func cmdDriveHistory(args []string) error {
 			}
 			inOrder = append(near, inOrder...)
 		}
+		inOrder = append([]*histQuery{
+			// (the fresh process asks in the reverse order: there the image requests come first)
+			{kind: "net", host: "static.site.com", url: "https://static.site.com/promo/BANNER.js", src: "https://site.com/", typ: rules.TypeScript},
+			{kind: "net", host: "static.site.com", url: "https://static.site.com/Promo/banner.png", src: "https://site.com/", typ: rules.TypeImage},
+			{kind: "net", host: "static.site.com", url: "https://static.site.com/promo/banner.png", src: "https://site.com/", typ: rules.TypeImage},
+		}, inOrder...)
 		pool[0] = &histQuery{kind: "web", host: "tracker.test", url: "http://tracker.test/q/banner.png", src: "https://sub.example.org/", typ: rules.TypeImage}
 		pool[1] = &histQuery{kind: "net", host: "tracker.test", url: "http://tracker.test/q/banner.png", src: "https://sub.example.org/news/", typ: rules.TypeImage}
 		for i := 0; i < hl; i++ {
@@ -995,16 +1004,36 @@ func cmdDriveFault(args []string) error {
 				tr, idx := sc.Rule()
 				want := fmt.Sprintf("%s@%d", tr.Text(), idx)
 				var got []string
-				pv := safeCall(func() {
-					if rr, _ := st.RetrieveRule(idx); rr != nil {
-						got = []string{fmt.Sprintf("%s@%d", rr.Text(), idx)}
-					}
-				})
+				type ret struct {
+					got []string
+					pv  string
+				}
+				done := make(chan ret, 1)
+				go func() {
+					var g []string
+					p := safeCall(func() {
+						if rr, _ := st.RetrieveRule(idx); rr != nil {
+							g = []string{fmt.Sprintf("%s@%d", rr.Text(), idx)}
+						}
+					})
+					done <- ret{g, p}
+				}()
+				var pv string
+				select {
+				case r := <-done:
+					got, pv = r.got, r.pv
+				case <-time.After(8 * time.Second):
+					// a retrieval that does not come back (a lock left behind by a failed one) is as bad as a crash
+					pv, hung = "the retrieval did not return within 8 s (deadlock)", true
+				}
 				if pv != "" {
 					got = []string{"PANIC"}
 				}
 				out.write(map[string]any{"ev": "query", "q": fmt.Sprintf("retrieve|%d", idx), "got": nz(got), "gotnet": []string{}, "twin": []string{want}, "twinnet": []string{},
 					"ref": []string{want}, "kind": pv, "h": hnum})
+				if hung {
+					break
+				}
 			}
 		}
 		cleanup()
